@@ -43,6 +43,15 @@ def worker_main(pid, spec_path, out_path):
         res = {"inconclusive": ["worker crashed: " + traceback.format_exc()[-1500:]]}
     res["wall_s"] = time.time() - t0
     from skv import env
+    try:
+        from skv import gen
+        if gen.REFUSALS:
+            res.setdefault("counters", {})["generated_valid_blocks_refused_by_code_under_test"] = len(gen.REFUSALS)
+            res.setdefault("inconclusive", []).append(
+                "%d generated blocks that the reference finds valid were refused by the code under test while building the "
+                "workload (first: %s)" % (len(gen.REFUSALS), gen.REFUSALS[0]))
+    except Exception:
+        pass
     res.setdefault("assumptions", [])
     for a in env.ASSUMPTIONS:
         if a not in res["assumptions"]:
@@ -230,8 +239,9 @@ def orchestrate(pid, tier, seed, replay_path=None):
         "wall_s": round(time.time() - t0, 2), "violations": len(new),
     }
     if not replay_path:
-        os.makedirs(os.path.join(VERIF_DIR, "evidence"), exist_ok=True)
-        evp = os.path.join(VERIF_DIR, "evidence", "%s.json" % pid)
+        evdir = os.environ.get("VERIF_EVIDENCE_DIR") or os.path.join(VERIF_DIR, "evidence")
+        os.makedirs(evdir, exist_ok=True)
+        evp = os.path.join(evdir, "%s.json" % pid)
         with open(evp + ".tmp", "w") as f:
             json.dump(ev, f, indent=1, sort_keys=True, default=str)
         os.replace(evp + ".tmp", evp)
@@ -250,14 +260,15 @@ def orchestrate(pid, tier, seed, replay_path=None):
         print("KNOWN-FINDING: property=%s %s (observed %d times this run; key=%s)" % (
             pid, known_for[key]["text"], len(vs), key))
     if new:
-        os.makedirs(os.path.join(VERIF_DIR, "replays"), exist_ok=True)
+        rpdir = os.environ.get("VERIF_REPLAY_DIR") or os.path.join(VERIF_DIR, "replays")
+        os.makedirs(rpdir, exist_ok=True)
         by_key = {}
         for v in new:
             by_key.setdefault(v.get("key", "?"), []).append(v)
         n = 0
         for key, vs in by_key.items():
             v = vs[0]
-            path = os.path.join(VERIF_DIR, "replays", "%s-%s-%d.json" % (pid, seed, n))
+            path = os.path.join(rpdir, "%s-%s-%d.json" % (pid, seed, n))
             n += 1
             with open(path, "w") as f:
                 json.dump({"property": pid, "key": key, "message": v.get("msg"), "count": len(vs),
